@@ -103,7 +103,8 @@ def run_group(exe, gid, lang, wit, scenarios_fn, workdir):
     ok, names, files, err = L.generate(exe, lang, wit, d)
     if not ok:
         shutil.rmtree(d, ignore_errors=True)
-        return {"gid": gid, "lang": lang, "ok": False, "err": err.strip().split("\n")[-1][:200], "records": []}
+        return {"gid": gid, "lang": lang, "ok": False, "err": err.strip().split("\n")[-1][:200], "records": [],
+                "timeout_wit": wit if err.startswith("TIMEOUT") else None}
     res = {"gid": gid, "lang": lang, "ok": True, "names": names, "records": [], "unstable": [], "skipped_runs": 0}
     bad = unstable_files(exe, lang, wit, d, names, files, 1)
     if bad is None:
@@ -228,6 +229,13 @@ def _run(ctx, workdir, n_worlds, n_scen, langs):
             for n in res["unstable"]:
                 unstable.setdefault(g[1], set()).add(n)
         if not res["ok"]:
+            if res.get("timeout_wit"):
+                dist["generation_timeouts"] = dist.get("generation_timeouts", 0) + 1
+                if dist["generation_timeouts"] <= 2:
+                    ctx.notes.append("generation by the real binary timed out (%ds) for lang=%s world=%r" % (L.TIMEOUT, g[1], res["timeout_wit"][:4000]))
+            if res["err"].startswith("TOOBIG"):
+                dist["skipped_output_too_large"] = dist.get("skipped_output_too_large", 0) + 1
+                continue
             dist["generation_failed"] += 1
             dist["generation_failed_" + g[1]] = dist.get("generation_failed_" + g[1], 0) + 1
             continue
